@@ -27,7 +27,12 @@ def table_samples(facts):
             r = tbl_eval(facts, fn, args)
             out[key] = canon(T.unref(r.value) if not isinstance(r.value, (list, tuple)) else [T.unref(x) for x in r.value])
         except (NotATable, TableIndexOutOfRange) as e:
-            out[key] = "not-a-table: %s" % e
+            # a lookup rewritten as arithmetic in one configuration: evaluate the loop-free function instead
+            from rules.pathmodel import model_value
+            try:
+                out[key] = canon(model_value(fn, args, "u32"))
+            except Exception:
+                out[key] = "not-a-table: %s" % e
 
     def f(name):
         return facts.fn(name)
